@@ -141,3 +141,49 @@ def check_reference_fields(res, lcs) -> Tuple[int, int]:
     )
   res.extra["reference_fields"] = {"encoders": sorted(f"{k[0]} <- {k[1]}" for k in enc), "decode_sites": n1, "paired_sites": n2}
   return n1, n2
+
+
+# ------------------------------------------------------------------------------------------------ R-FRAME.1
+COM_BASED = ("Data.cdof", "Data.cdof_dot", "Data.cvel", "Data.cacc", "Data.cfrc_int", "Data.cfrc_ext", "Data.cinert")
+
+
+def check_com_frame(res, lcs) -> int:
+  """R-FRAME.1: the com-based spatial quantities (cdof, cdof_dot, cvel, cacc, cfrc_int, cfrc_ext, cinert) are expressed
+  about the subtree centre of mass of the kinematic tree's ROOT body. A kernel that touches one of them and shifts it to
+  or from a point therefore reads Data.subtree_com at `body_rootid[<body>]` - the cell the quantities were built against
+  (smooth._cdof / _cinert / comvel). Reading subtree_com at a body id itself gives that body's own subtree centre, which
+  coincides with the root's only for single-body trees (what the fixtures have). All index alternatives are examined."""
+  from .world import array_key
+
+  n = 0
+  seen = set()
+  for lc in lcs:
+    if lc.name in seen:
+      continue
+    seen.add(lc.name)
+    keys = {array_key(lc, a.root) for a in lc.keval.accesses}
+    com = sorted(k for k in keys if k in COM_BASED)
+    if not com:
+      continue
+    for a in lc.keval.accesses:
+      if a.is_write or array_key(lc, a.root) != "Data.subtree_com" or len(a.idx) < 2:
+        continue
+      for x in alternatives(a.idx[1]):
+        ok = isinstance(x, T) and x.op == "ld" and (lc.field(x.args[0]) is not None and lc.field(x.args[0]).path == "body_rootid")
+        key = f"{lc.name}|subtree_com|{show(x)[:50]}"
+        if key in seen:
+          continue
+        seen.add(key)
+        n += 1
+        res.ob(
+          ok,
+          key,
+          Finding(
+            "R-FRAME.1",
+            f"{lc.name}|subtree_com|not-at-tree-root",
+            f"{lc.name} works with the com-based {', '.join(k.split('.')[1] for k in com)} (expressed about subtree_com[body_rootid[body]]) but reads Data.subtree_com at `{show(x)[:80]}`, which is not a body_rootid[...] cell: the shift uses a different reference point than the one the quantity was built against",
+            a.loc,
+          ),
+          sample={"kernel": lc.name, "com_based": com, "index": show(x)[:60]} if n % 12 == 1 else None,
+        )
+  return n
